@@ -42,6 +42,8 @@ CHECKS = {
          "for every enumerated run the shapes, first column, Hessenberg form with non-negative sub-diagonal, orthonormality of the required leading columns, the Arnoldi relation, zero weight beyond the Krylov dimension, exact zero padding and equality with the m = n result for m > n are checked; arnoldi_eigs must return the spectrum at m >= n and nothing spurious after a breakdown"),
  "C17": ("operation histories: every sequence of <=2 (quick) / <=3 (thorough) events over all randomised cola routines x keys and user draws from numpy.random; Hutchinson expectation by enumerating the full Rademacher probe cube through a seam on the backend's randn",
          "after every step of every enumerated history numpy's global generator state is bit-identical, every keyed call equals its clean-state result, and user draws equal those of the history without cola calls; the average of the Hutchinson estimate over the whole sign cube must equal the true diagonal exactly for all offsets"),
+ "C19": ("complete lattice {structured operators with n ~ 1000-1300 built from small factors} x {64 entry points with the algorithm argument omitted / Auto / explicit}; points are selected by reading the live rule table; allocation monitor (tracemalloc) on every execution",
+         "every lattice point with a structural rule is executed under tracemalloc; the peak additional memory must stay below 64 x (operand + dense sizes of the factors the rules may materialise) + 64 KiB, a factor 10-100 below the full matrix"),
 }
 PENDING = {}
 props = [json.loads(l) for l in open(os.path.join(ROOT, "properties.jsonl"))]
